@@ -495,7 +495,7 @@ func c02One(c *Ctx, r *Rng, o simOpts, prop string) {
 	defer sc.client.Close()
 	q := genInsertQuery(r, sc.enc.rev)
 	var p insertPlan
-	isInsert := prop == "C09" || r.Chance(65)
+	isInsert := prop == "C09" || c02ForcedPlan != nil || r.Chance(65)
 	if c02ForcedPlan != nil {
 		p = *c02ForcedPlan
 	} else if isInsert {
@@ -580,6 +580,7 @@ func runC02(c *Ctx) {
 	if c.Thorough {
 		n = 6000
 	}
+	c02LargeBlocks(c, r.Fork(), "C02")
 	for i := 0; i < n; i++ {
 		o := simOpts{compression: c03Compressions[r.Intn(len(c03Compressions))], serverRev: c02Revs[r.Intn(len(c02Revs))], quotaKey: genStr(r), readTimeout: 80 * time.Millisecond}
 		if r.Chance(40) {
@@ -601,6 +602,7 @@ func runC09(c *Ctx) {
 		o := simOpts{compression: c03Compressions[r.Intn(len(c03Compressions))], serverRev: c02Revs[r.Intn(len(c02Revs))], readTimeout: 80 * time.Millisecond}
 		c02One(c, r.Fork(), o, "C09")
 	}
+	c02LargeBlocks(c, r.Fork(), "C09")
 	// directed: rows rewritten in place through the column's exported storage (no Reset, no Append), the row count staying
 	// the same from round to round — on LowCardinality (whose dictionary and keys are derived state), on a zero-copy column
 	for _, ts := range []string{"LowCardinality(String)", "LowCardinality(UInt32)", "UInt64", "Int8"} {
@@ -621,6 +623,32 @@ func runC09(c *Ctx) {
 				c02One(c, r.Fork(), simOpts{compression: comp, serverRev: 54460, readTimeout: 80 * time.Millisecond}, "C09")
 				c02ForcedPlan = nil
 			}
+		}
+	}
+}
+
+// blocks whose compressed frame is larger than a megabyte (incompressible 64-bit values), followed in the same flush by
+// another block (the terminator; the terminator after the rows that came with io.EOF): every frame must arrive as it was
+// compressed, whatever scratch memory the compressor reuses
+func c02LargeBlocks(c *Ctx, r *Rng, prop string) {
+	t, err := parseCH("UInt64")
+	if err != nil {
+		return
+	}
+	comps := []ch.Compression{ch.CompressionLZ4, ch.CompressionZSTD, ch.CompressionNone, ch.CompressionDisabled}
+	for i, comp := range comps {
+		if !c.Thorough && i >= 2 && prop != "C09" {
+			break
+		}
+		for _, withCB := range []bool{false, true} {
+			p := insertPlan{types: []*TNode{t}, names: []string{"c0"}, initial: 140000, hasCB: withCB}
+			if withCB {
+				// one more large round, then end of input with the rows still present
+				p.rounds = []inputRound{{Mut: "reset-append", Rows: 135000, Ret: "nil"}, {Mut: "none", Rows: 0, Ret: "eof"}}
+			}
+			c02ForcedPlan = &p
+			c02One(c, r.Fork(), simOpts{compression: comp, serverRev: 54460, readTimeout: 500 * time.Millisecond}, prop)
+			c02ForcedPlan = nil
 		}
 	}
 }
